@@ -35,6 +35,10 @@ void inst(gray8_view_t const& a, gray8_view_t const& b, gray16_view_t const& c, 
   median_filter(a, b, 3); median_filter(e, f, 5);
 }
 void inst2(rgb8_view_t const& e, bgr8_view_t const& x){ threshold_optimal(e, x); median_filter(e, x, 3); }
+// source and destination channels of different signedness at 32 bits (T1b): the threshold has the destination's type
+void inst3(gray32s_view_t const& s, gray32_view_t const& u){
+  threshold_binary(s, u, 0u, 5u); threshold_binary(u, s, -1, 5); threshold_truncate(s, u, 5u); threshold_truncate(u, s, -1, threshold_truncate_mode::zero);
+}
 '''
 
 
@@ -103,9 +107,53 @@ def context_of(path):
     return ctx
 
 
+T0_WITNESS = r"""
+#include "vf_common.hpp"
+#include <boost/gil/image_processing/threshold.hpp>
+#include <boost/gil/image_processing/morphology.hpp>
+#include <boost/gil/image_processing/filter.hpp>
+using namespace vf;
+// "all channel types": every threshold entry point over 8/16/32-bit unsigned and signed channels and the library's float32_t, same type and mixed
+template <class S, class D> void thr(S const& s, D const& d, typename channel_type<D>::type t){
+  threshold_binary(s, d, t, t); threshold_binary(s, d, t); threshold_binary(s, d, t, threshold_direction::inverse);
+  threshold_truncate(s, d, t); threshold_truncate(s, d, t, threshold_truncate_mode::zero, threshold_direction::inverse);
+}
+void inst(gray8_view_t const& a, gray8s_view_t const& b, gray16_view_t const& c, gray16s_view_t const& d, gray32_view_t const& e, gray32s_view_t const& f,
+          gray32f_view_t const& g, rgb32f_view_t const& h, rgb8_view_t const& i){
+  thr(a, a, 1); thr(b, b, 1); thr(c, c, 1); thr(d, d, 1); thr(e, e, 1); thr(f, f, 1); thr(g, g, 0.5f); thr(h, h, 0.5f);
+  thr(a, c, 1); thr(c, a, 1); thr(b, a, 1); thr(a, g, 0.5f); thr(g, a, 1); thr(i, h, 0.5f);
+  detail::kernel_2d<float> k(3, 1, 1); dilate(g, g, k, 1); erode(e, e, k, 1); median_filter(g, g, 3); median_filter(f, f, 3);
+}
+"""
+
+
+def entry_points_compile(rep, wd):
+    rep.rule("T0 threshold_binary (three forms) and threshold_truncate (both modes) instantiate for 8/16/32-bit unsigned and signed channels and float32_t, "
+             "same-type and mixed source/destination; dilate / erode / median_filter for 32-bit and float32_t channels")
+    src = os.path.join(wd, "t0_witness.cpp")
+    open(src, "w").write(T0_WITNESS)
+    rc, err, cmd = C.syntax_only(src)
+    rep.count("obligations:T0")
+    if rc == 0:
+        rep.ok("T0-entry-points", "T0:threshold / morphology / median over all channel types", "compiles")
+        return
+    seen = set()
+    for e in C.parse_errors(err)[:30]:
+        if "include/boost/gil/" not in e["file"]:
+            continue
+        key = "T0:%s:%s" % (C.repo_rel(e["file"]), re.sub(r"'[^']{40,}'", "'...'", e["msg"])[:90])
+        if key in seen:
+            continue
+        seen.add(key)
+        rep.violation("T0-entry-points", key, "%s:%s" % (C.repo_rel(e["file"]), e["line"]), {"error": e["msg"][:300], "example": "threshold_binary(const_view(gray32f image), view(gray32f image), 0.5f);"})
+    if not seen:
+        raise C.AnalysisBroken("T0 witness does not compile: %s" % err[-600:])
+
+
 def run(rep):
     C.need_tools(C.ASTDUMP)
     wd = C.workdir("C16")
+    entry_points_compile(rep, wd)
     src = os.path.join(wd, "c16_driver.cpp")
     open(src, "w").write(DRIVER)
     d = C.astdump(src, os.path.join(wd, "c16.json"),
@@ -339,6 +387,7 @@ def run(rep):
     rep.rule("T8 threshold_optimal, median_filter, detail::morph: every nth_channel_view call (which forms a reference to pixel (0,0)) is dominated by the test that the source view has pixels")
     R.nonempty_guard(rep, fns, "T8-nonempty", ("boost::gil::threshold_optimal", "boost::gil::median_filter", "boost::gil::detail::morph"), "obligations:T8")
     spread_type(rep, fns)
+    comparison_type(rep, fns)
     rep.floor("obligations:T8", 3)
     # ---------------------------------------------------------------- T6 staging in morph()
     rep.rule("T6 detail::morph(src, dst, ...): dilate/erode pass the same view as src and dst, so every channel is computed from src into the scratch image "
@@ -466,3 +515,35 @@ def spread_type(rep, fns):
         else:
             rep.ok("T9-spread-type", key, "%d channel differences, none narrowed below the spread of its type" % ndiff)
     rep.floor("obligations:T9", 1)
+
+
+def comparison_type(rep, fns):
+    """T1b: the decision tables of T1 are over the VALUES of pixel and threshold. `px > t` is that comparison only if it is carried out in a type that holds both values:
+    between int32_t and uint32_t the usual arithmetic conversions turn the signed operand into an unsigned one."""
+    from .ast.rules import _TYRANGE, _cty
+    rep.rule("T1b in the lambdas of threshold_binary / threshold_truncate, instantiated for a signed 32-bit source with an unsigned 32-bit destination and vice versa, no operand of the "
+             "comparison is converted from a signed to an unsigned integral type (an implicit, value-changing conversion): the comparison is performed in a type that holds both operands. "
+             "Witness: pixel -1 against the threshold 0u")
+    seen = {}
+    for f in fns:
+        if not re.match(r"boost::gil::threshold_(binary|truncate)$", f["name"]) or f.get("body") is None:
+            continue
+        st = [p["type"] for p in f["params"][:2]]
+        for lam, _ in R.find(f["body"], lambda x: x.get("k") == "Lambda"):
+            for c, _ in R.find(lam["body"], lambda x: x.get("k") == "Binary" and x.get("op") in (">", "<", ">=", "<=")):
+                bad = []
+                for side in (c["l"], c["r"]):
+                    for x, _ in R.find(side, lambda y: y.get("k") == "ImplicitCast" and y.get("cast") == "IntegralCast" and y.get("from_c") is not None and "const" not in y):
+                        frm, to = _cty(x["from_c"]), _cty(x["to_c"])
+                        if frm in _TYRANGE and to in _TYRANGE and _TYRANGE[frm][0] < 0 and _TYRANGE[to][0] == 0:
+                            bad.append({"operand": R.key(x["e"])[:40], "converted from": frm, "to": to})
+                key = "T1b:%s:comparison type" % f["name"].split("::")[-1]
+                if key not in seen or (bad and not seen[key][0]):
+                    seen[key] = (bad, f)
+    for key, (bad, f) in sorted(seen.items()):
+        rep.count("obligations:T1b")
+        if bad:
+            rep.violation("T1b-comparison-type", key, R.fn_where(f), {"sign-changing conversions in the comparison": bad[:4], "example": "threshold_binary(gray32s view holding -1, gray32 view, 0u): -1 > 0u is true, the output is max instead of 0"})
+        else:
+            rep.ok("T1b-comparison-type", key, "no operand is converted from signed to unsigned")
+    rep.floor("obligations:T1b", 2)
